@@ -152,6 +152,8 @@ def run_property(prop, tier, module, repo=None, quiet=False, want_ast=True):
     try:
         mir_dir, ast_dir = ensure_facts(tier, repo, want_ast=want_ast)
         mir = Facts(mir_dir)
+        from . import absval
+        absval.set_facts(mir)
         from .astfacts import AstFacts
         ast = AstFacts(ast_dir) if want_ast and os.path.exists(os.path.join(ast_dir, ".done")) else None
         cx = Ctx(prop, tier, mir, ast, repo)
